@@ -34,7 +34,10 @@ def artists(fig):
             try:
                 off = np.asarray(col.get_offsets(), float)
                 if off.ndim == 2 and off.shape[1] == 2 and len(off):
-                    out.append({"kind": "scatter", "label": str(col.get_label()), "x": off[:, 0].tolist(), "y": off[:, 1].tolist()})
+                    arr = col.get_array()
+                    out.append({"kind": "scatter", "label": str(col.get_label()), "x": off[:, 0].tolist(), "y": off[:, 1].tolist(),
+                                "c": None if arr is None else np.asarray(arr, float).reshape(-1).tolist(), "title": ax.get_title(),
+                                "colorbar": ax.get_label() == "<colorbar>", "s": np.asarray(col.get_sizes(), float).reshape(-1).tolist()})
             except Exception:
                 pass
     return out
@@ -63,6 +66,28 @@ def matches(ex, ey, art, unordered):
     return all(_eq(a, b) for a, b in zip(ex, art["x"])) and all(_eq(a, b) for a, b in zip(ey, art["y"]))
 
 
+def _map_ok(c, arts, names):
+    """map view: panel i (in input order) is titled with input i's name and holds exactly the locations with a score, at (lon, lat), coloured by it"""
+    msgs = []
+    panels = [a for a in arts if a["kind"] == "scatter" and a.get("c") is not None and not a.get("colorbar")]
+    titles = [a["title"] for a in panels]
+    if titles != names[:len(c["series"])]:
+        msgs.append("panels are titled %r, expected the inputs in command-line order %r" % (titles, names))
+        return msgs
+    for s, a in zip(c["series"], panels):
+        want = []
+        for ex, ey, ec in zip(s["x"], s["y"], s["c"]):
+            v = expr.ev(ec)
+            if v == "undef" or (isinstance(v, float) and math.isnan(v)):
+                continue
+            want.append((expr.ev(ex), expr.ev(ey), v))
+        got = sorted(zip(a["x"], a["y"], a["c"]))
+        want.sort()
+        if len(got) != len(want) or not all(_eq(w[0], g[0]) and _eq(w[1], g[1]) and _eq(w[2], g[2]) for w, g in zip(want, got)):
+            msgs.append("panel %r: expected points (lon, lat, score) %r, drawn %r" % (a["title"], want, got))
+    return msgs
+
+
 def _check_chunk(cases):
     import matplotlib.pyplot as mpl
     n = 0
@@ -87,6 +112,24 @@ def _check_chunk(cases):
             want = [expr.ev(s["y"][0]) for s in c["series"]]
             if not bars or len(bars[0]["y"]) != len(want) or not all(_eq(w, g) for w, g in zip(want, bars[0]["y"])):
                 divs.append(("diagram:%s:bars" % c["diagram"], "%s: expected bar heights %r in input order, drawn %r" % (" ".join(c["argv"]), want, bars[0]["y"] if bars else None), rep))
+            mpl.close("all")
+            continue
+        if c["diagram"] == "impact":
+            for s in c["series"]:
+                lab = names[s["label"][1] - 1] + s["label"][2]
+                want = sorted((expr.ev(a), expr.ev(b), expr.ev(v)) for a, b, v in zip(s["x"], s["y"], s["c"]))
+                got = [a for a in arts if a["kind"] == "scatter" and a["label"] == lab]
+                pts = sorted(zip(got[0]["x"], got[0]["y"], [v / 400.0 for v in got[0]["s"]])) if got else None
+                if want and (pts is None or len(pts) != len(want) or not all(_eq(w[k], g[k]) for w, g in zip(want, pts) for k in range(3))):
+                    divs.append(("diagram:impact:points", "%s: %r expected points (x, y, relative area) %r, drawn %r" % (" ".join(c["argv"]), lab, want, pts), rep))
+                if not want and got and len(got[0]["x"]):
+                    divs.append(("diagram:impact:points", "%s: %r expected no point, drawn %r" % (" ".join(c["argv"]), lab, got[0]["x"]), rep))
+            mpl.close("all")
+            continue
+        if c["diagram"] == "map":
+            msgs = _map_ok(c, arts, names)
+            for m in msgs:
+                divs.append(("diagram:map:panel", "%s: %s" % (" ".join(c["argv"]), m), rep))
             mpl.close("all")
             continue
         for s in c["series"]:
@@ -180,12 +223,14 @@ def _check_prob_chunk(cases):
 
 
 def run(ctx):
-    ctx.rule = ("case = (dataset with missing cells or boundary-straddling times, diagram, option variant): standard line/bar plots, obsfcst, qq, "
-                "scatter, against, sort, hist, freq, error, performance; non-trivial = the expected series has more than one point")
+    ctx.rule = ("case = (dataset with missing cells or boundary-straddling times | 12-case probabilistic dataset, diagram, option variant): standard "
+                "line/bar plots, map and impact views, and all 28 special diagrams of the help text; non-trivial = the expected series has more than one point")
     ctx.assumptions = ["figures are compared as matplotlib artist data (Line2D x/y, bar heights), not pixels",
                        "fss and autocorr/autocov along -x leadtime / time only (geographic distances are not rational); taylor slices of at most 24 cases",
                        "meteo, invreliability with -r, spreadskill with -r: on the 12-case probabilistic datasets",
-                       "not transcribed into Diagrams.tla: map, rank, impact views (their crash-freedom is C19's)"]
+                       "impact view: positions and relative areas of the points (not the marginal bars); map view: one titled panel per input",
+                       "not transcribed into Diagrams.tla: the rank / maprank / mapimpact views, whose tie tolerance (a 50th of the scores' standard deviation) "
+                       "is an implementation choice without a documented definition (their crash-freedom is C19's)"]
     res = tlc.run("MC_Diagrams", "MC_Diagrams_C12", tag=ctx.pid + "_det", timeout_s=1500)
     ctx.add_tlc("MC_Diagrams/C12", res, {"Family": "C12"})
     cases = res.emitted
